@@ -175,9 +175,14 @@ def _parse_place_prefix(s):
         if m:
             base = (base[0], base[1] + (("constindex", int(m.group(2)), int(m.group(3)), m.group(1) == "-"),))
             continue
-        m = re.match(r"^(\d+):(-?)(\d*)$", idx)
+        m = re.match(r"^(\d*):(-?)(\d*)$", idx)
         if m:
-            base = (base[0], base[1] + (("subslice", int(m.group(1)), int(m.group(3) or 0), m.group(2) == "-"),))
+            # rustc prints `Subslice { from, to, from_end: true }` as [from:], [:-to] or [from:-to]
+            base = (base[0], base[1] + (("subslice", int(m.group(1) or 0), int(m.group(3) or 0), True),))
+            continue
+        m = re.match(r"^(\d+)\.\.(\d+)$", idx)
+        if m:
+            base = (base[0], base[1] + (("subslice", int(m.group(1)), int(m.group(2)), False),))
             continue
         raise Unsupported("index projection: %r" % idx)
     return base, rest
